@@ -9,6 +9,6 @@ w = tempfile.mkdtemp(prefix="probe", dir=vlib.B)
 try:
     a = vlib.run_impl(ie, lines, w); b = vlib.run_model(me, lines, w)
     for l, x, y in zip(lines, a, b):
-        print("case :", l[:300]); print(" impl:", (x or "")[:600]); print(" model:", (y or "")[:600])
+        print("case :", l[:300]); print(" impl:", (x or "")[:int(__import__("os").environ.get("PROBE_W","600"))]); print(" model:", (y or "")[:600])
 finally:
     shutil.rmtree(w, ignore_errors=True)
